@@ -181,6 +181,9 @@ JudgeM(P, budget, nt, res, mono) ==      \* mono = Monotone(P), evaluated by the
               ELSE ""
          [] res.err = "Diverged" -> "no result within the recorder's cap on trans calls"
          [] OTHER -> IF mono THEN "error for a monotone analysis" ELSE ""
+  \* "if a step budget is exhausted it returns an error": the code tests the budget before each step and counts
+  \* from zero, so at most budget + 1 transfer calls can precede a result
+  ELSE IF budget >= 0 /\ nt > budget + 1 THEN "a result although the step budget was exhausted"
   ELSE IF mono THEN (IF res.ok = LFP(P) THEN "" ELSE "not the least solution")
   ELSE IF P.force THEN (IF IsPostSolution(P, res.ok) THEN "" ELSE "forced result is not a post-solution")
   ELSE IF IsSolution(P, res.ok) THEN "" ELSE "result is not a solution of the equations"
